@@ -12,6 +12,8 @@ import pickle
 import random
 import traceback
 
+from ..choices import Choices
+
 from .. import env, seams, simloop
 from ..kernel import Sim, FakeTime, Deadlock, StepCap, HarnessError
 from ..fakemp import FakeMP
@@ -187,6 +189,8 @@ def compute(job):
         cmds = env.cmd_list(job["hw"], pt)
         ordered = env.canon_tree(patching.Orderer.from_hw(job["hw"]).order_config(job["new"]))
         return ("OK", cmds, env.canon_diff(diff), ordered)
+    except MemoryError:
+        return ("EXC", "MemoryError", "address-space limit of the simulated worker reached")
     except Exception as e:  # pylint: disable=broad-except
         return ("EXC", type(e).__name__, str(e)[:160])
 
@@ -204,6 +208,8 @@ def _fork_compute(jobs, indices):
                 os.close(r)
                 try:
                     try:
+                        from ..runner import limit_resources
+                        limit_resources(3, 120)
                         data = pickle.dumps(compute(jobs[idx]))
                     except BaseException as e:  # pylint: disable=broad-except
                         data = pickle.dumps(("CHILD-EXC", repr(e), traceback.format_exc()[-800:]))
@@ -321,7 +327,23 @@ class Engine:
             os.close(r)
             try:
                 try:
-                    data = pickle.dumps(("OK", self._run_inner(ch), list(ch.log)))
+                    from ..runner import limit_resources
+                    limit_resources(4, 60)      # an ordinary history needs about one CPU second
+                    import signal
+
+                    class _Limit(BaseException):
+                        pass
+
+                    def _on_xcpu(_sig, _frm):
+                        raise _Limit()
+                    signal.signal(signal.SIGXCPU, _on_xcpu)
+                    try:
+                        res = self._run_inner(ch)
+                    except _Limit:
+                        # the simulated worker ran into its CPU limit: work that explodes along a history is history
+                        # dependence (every job takes well under a second in a fresh process)
+                        res = self._limit_violation(ch, "CPU limit")
+                    data = pickle.dumps(("OK", res, list(ch.log)))
                 except HarnessError as e:
                     data = pickle.dumps(("HARNESS", str(e), None))
                 except BaseException as e:  # pylint: disable=broad-except
@@ -339,14 +361,21 @@ class Engine:
                 break
             chunks.append(b)
         os.close(r)
-        os.waitpid(pid, 0)
+        _pid, status = os.waitpid(pid, 0)
         if not chunks:
-            raise HarnessError("history child died without an answer")
+            raise HarnessError("history child died without an answer (status %r)" % (status,))
         tag, res, log = pickle.loads(b"".join(chunks))
         if tag != "OK":
             raise HarnessError(res)
         ch.log[:] = log
         return res
+
+    def _limit_violation(self, ch, why):
+        return {"violation": {"clause": "work-explodes-along-history", "key": "resource-limit",
+                              "detail": {"why": why, "limit": "60 CPU seconds / 4 GB for one history; every job of the table "
+                                         "takes well under a second in a fresh process"}},
+                "nontrivial": True, "sig": 0, "sim_s": 0.0, "steps": 0, "faults": {}, "probes": {}, "strategy": "limit",
+                "scenario": {"note": "history cut short by the resource limit"}, "trace": []}
 
     def _run_inner(self, ch):
         mode = ch.weighted([(3, "sequential"), (1, "pool")], "mode")
